@@ -22,9 +22,18 @@ EntryPoints == {"gosqlx.Parse", "gosqlx.ParseBytes", "gosqlx.ParseWithContext", 
                 "Parser.Parse", "Parser.ParseContext", "Parser.ParseWithPositions"}
 ReturnsTree(ep) == ep \notin {"gosqlx.Validate", "gosqlx.ValidateMultiple", "parser.Validate"}
 
+\* pad: what stands before the first and / or after the last segment.  Padding is text like any other and goes
+\* through the same stages: blanks and comments are skipped by Lex, a character the lexical grammar has no token for
+\* (control characters, a byte order mark, a no-break space) makes Lex fail - in EVERY entry point, none of which
+\* may trim the text on its own
+Pads == {"none", "blank", "comment", "control"}
 Inputs == [size : {"ok", "tooLarge"}, lex : {"ok", "lexError", "tooManyTokens"},
-           segs : UNION {[1..n -> BOOLEAN] : n \in 1..MaxSegs}]     \* TRUE = well-formed segment
-WellShaped(i) == (i.size = "tooLarge" => i.lex = "ok" /\ Len(i.segs) = 1) /\ (i.lex # "ok" => Len(i.segs) = 1)
+           segs : UNION {[1..n -> BOOLEAN] : n \in 1..MaxSegs},     \* TRUE = well-formed segment
+           pad : Pads, padAt : {"lead", "trail", "both"}]
+WellShaped(i) == /\ (i.size = "tooLarge" => i.lex = "ok" /\ Len(i.segs) = 1) /\ (i.lex # "ok" => Len(i.segs) = 1)
+                 /\ (i.pad # "none" => i.size = "ok" /\ i.lex = "ok" /\ Len(i.segs) <= 2)
+                 /\ (i.pad = "none" => i.padAt = "lead")
+LexOf(i) == IF i.pad = "control" THEN "lexError" ELSE i.lex
 
 VARIABLES in, ep, stage, res
 vars == <<in, ep, stage, res>>
@@ -41,8 +50,8 @@ CheckSize == /\ stage = "start"
                 ELSE res' = res /\ stage' = "lex"
              /\ UNCHANGED <<in, ep>>
 Lex == /\ stage = "lex"
-       /\ CASE in.lex = "lexError"      -> res' = Reject("lex", "tokenizer", 0) /\ stage' = "returned"
-            [] in.lex = "tooManyTokens" -> res' = Reject("lex", "limit", 0) /\ stage' = "returned"
+       /\ CASE LexOf(in) = "lexError"      -> res' = Reject("lex", "tokenizer", 0) /\ stage' = "returned"
+            [] LexOf(in) = "tooManyTokens" -> res' = Reject("lex", "limit", 0) /\ stage' = "returned"
             [] OTHER                    -> res' = res /\ stage' = "convert"
        /\ UNCHANGED <<in, ep>>
 Convert == /\ stage = "convert" /\ stage' = "loop" /\ UNCHANGED <<in, ep, res>>
@@ -52,7 +61,7 @@ Loop == /\ stage = "loop"
         /\ stage' = "returned" /\ UNCHANGED <<in, ep>>
 \* one printed case per input (the driver crosses it with every entry point)
 Out == (Emit /\ stage' = "returned" /\ ep = "gosqlx.Parse") =>
-          PrintT(ToJson([size |-> in.size, lex |-> in.lex, segs |-> in.segs, res |-> res']))
+          PrintT(ToJson([size |-> in.size, lex |-> in.lex, segs |-> in.segs, pad |-> in.pad, padAt |-> in.padAt, res |-> res']))
 
 Next == (CheckSize \/ Lex \/ Convert \/ Loop) /\ Out
 Spec == Init /\ [][Next]_vars /\ WF_vars(Next)
@@ -61,8 +70,8 @@ Spec == Init /\ [][Next]_vars /\ WF_vars(Next)
 Totality == <>(stage = "returned")
 \* C07: the outcome is a function of the input alone - no entry point appears in it
 Expected(i) == IF i.size = "tooLarge" THEN Reject("size", "limit", 0)
-               ELSE IF i.lex = "lexError" THEN Reject("lex", "tokenizer", 0)
-               ELSE IF i.lex = "tooManyTokens" THEN Reject("lex", "limit", 0)
+               ELSE IF LexOf(i) = "lexError" THEN Reject("lex", "tokenizer", 0)
+               ELSE IF LexOf(i) = "tooManyTokens" THEN Reject("lex", "limit", 0)
                ELSE IF FirstBad(i.segs) = 0 THEN [verdict |-> "accept", stage |-> "none", family |-> "none", firstBad |-> 0]
                ELSE Reject("parse", "parser", FirstBad(i.segs))
 EntryAgreement == stage = "returned" => res = Expected(in)
